@@ -209,6 +209,24 @@ class Run:
         self.extra.setdefault("apalache_inductive_invariants", []).append({"module": module, "invariant": indinv, "constants": cinit, "ok": True, "obligations": checked})
         return True
 
+    def tlaps(self, module, timeout=1500):
+        """Machine-checked proof (TLAPS) that an invariant is inductive for EVERY value of the constants.  Absence of the
+        tool is recorded as an assumption; a failed or unfinished proof is an infrastructure matter (never a verdict)."""
+        if shutil.which("tlapm") is None:
+            self.assumptions.append("tlapm not available: the TLAPS proof %s was not re-checked" % module)
+            return False
+        d = self.specdir("tlaps-" + module)
+        try:
+            r = subprocess.run(["tlapm", "--threads", "16", "--cleanfp", module + ".tla"], cwd=d, capture_output=True, text=True, timeout=timeout)
+        except subprocess.TimeoutExpired:
+            raise Infra("tlapm timed out on %s" % module)
+        out = r.stdout + r.stderr
+        m = re.search(r"All (\d+) obligations? proved", out)
+        if not m:
+            raise Infra("tlapm: the proof in %s does not check:\n%s" % (module, out[-2000:]))
+        self.extra.setdefault("tlaps_proofs", []).append({"module": module, "obligations_proved": int(m.group(1))})
+        return True
+
     # ---------------------------------------------------------------- driver
     def drive(self, family, shards=1, extra_args=(), race=False, env=None, timeout=3000, crash_ok=False):
         vc = self.build_harness(race=race)
